@@ -41,9 +41,14 @@ MANIFEST = {
             'ordinary cases of the oracle and of the model (C30_find_both_correct, C30_find_empty); still open: F-C30-3 '
             'to_bits(nonintegral secfxp, l > bit_length) is wrong although the assert admits l <= bit_length + frac_length '
             '(C30_to_bits_l_gt_bit_length_refuted). '
+            'F-C30-4 (indexOf read the caller\'s list after its first await) repaired by e690f45 and covered by the aliasing '
+            'stream; open: F-C30-5 np_unit_vector(a, n) with a secfxp index shifts the caller\'s share in place (a >>= f), '
+            'checked at m=1 under the NumPy interpreter in a subprocess (call twice on the same index object / read it '
+            'afterwards); the list version unit_vector and to_bits / trailing_zeros / gcp2 get the same reuse checks in the '
+            'simulator and are not affected. '
             'In the simulator the tape of to_bits / trailing_zeros is genuinely distributed and not observable: there the model is '
             'evaluated on an arbitrary no-wrap tape (the result is tape independent by the theorems; for trailing_zeros only the '
-            'specified prefix up to the lowest 1 is compared). np_add_bits / np_to_bits / np_find / np_unit_vector are not covered.',
+            'specified prefix up to the lowest 1 is compared). np_add_bits / np_to_bits / np_find are not covered; np_unit_vector only by the index-reuse stream.',
     'technique': 'Coq proof by induction over the recursion structure + vm_compute correspondence on shared tapes + exhaustive small-domain oracle',
 }
 
@@ -731,10 +736,10 @@ def _sim_cases(rng, n_scale):
     for A in (5, -3, 100):
         for mode in ('reverse', 'del_last_reverse', 'append', 'overwrite'):
             C.append(('alias_to_from', A, mode))
-    for mode in ('reverse', 'del_last', 'append', 'overwrite'):
-        n = rng.choice([3, 5, 7])
+    for mode in ('reverse', 'del_first', 'insert_first', 'first_becomes_a', 'del_last', 'append'):
+        n = rng.choice([4, 6, 8])                  # even length, inner position: each of the first four changes the index
         xs = rng.sample(range(2, 30), n)
-        pos = rng.randrange(1, n - 1)              # neither first nor last: every mutation changes the answer or the list
+        pos = rng.randrange(1, n - 1)
         C.append(('alias_indexOf', mode, xs, xs[pos], rng.random() < 0.5))
         C.append(('alias_find_nonbits', mode, xs, xs[pos]))
     # the secure index object is reused: call twice on the same object and read it afterwards
@@ -751,8 +756,14 @@ def _sim_cases(rng, n_scale):
     return C
 
 
-def _mutate(x, mode, one):
-    if mode == 'reverse':
+def _mutate(x, mode, one, a=None):
+    if mode == 'del_first':
+        del x[0]
+    elif mode == 'insert_first':
+        x.insert(0, one)
+    elif mode == 'first_becomes_a':
+        x[0] = x[1] * 0 + a
+    elif mode == 'reverse':
         x.reverse()
     elif mode == 'del_last':
         del x[-1]
@@ -886,14 +897,14 @@ def _sim_prog(cases):
                     one = share(secint8, [1])[0]
                     aa = share(secint8, [a])[0] if asec else a
                     z = mpc.indexOf(x, aa)
-                    _mutate(x, mode, one)
+                    _mutate(x, mode, one, a)
                     r = await opn(z)
                 elif kind == 'alias_find_nonbits':
                     _, mode, xs, a = c
                     x = share(secint8, xs)
                     one = share(secint8, [1])[0]
                     z = mpc.find(x, a, bits=False)
-                    _mutate(x, mode, one)
+                    _mutate(x, mode, one, a)
                     r = await opn(z)
                 elif kind == 'uv_twice':
                     _, tn, a, n = c
@@ -1138,7 +1149,7 @@ out = []
 def opn(v):
     r = mpc.run(mpc.output(v))
     return [float(int(x)) if not isinstance(x, (int, float)) else float(x) for x in (r.tolist() if hasattr(r, 'tolist') else [r])]
-for name, st in [('secint', mpc.SecInt(16)), ('secfxp', mpc.SecFxp(16, 8)), ('secfld', mpc.SecFld(101))]:
+for name, st in [('secint', mpc.SecInt(16)), ('secfxp', mpc.SecFxp(16, 8)), ('secfld', mpc.SecFld(2**61 - 1))]:   # a field large enough for the mask R*n (small GF(p): code TODO)
     for (v, n) in [(3, 5), (0, 4), (6, 7), (1, 2)]:
         a = st(v)
         try:
